@@ -95,7 +95,8 @@ def w_missing(job):
                     outs['missing%d' % min(nm, 3)] = outs.get('missing%d' % min(nm, 3), 0) + 1
                     cols = [c for c in base.columns if c != '_id']
                     brow = [tuple(cell(v) for v in r) for r in base[cols].values.tolist()]
-                    frow = [tuple(cell(v) for v in r) for r in full[cols].values.tolist()]
+                    # a column that one of the two results lacks is reported below ('columns differ'); here it reads as missing
+                    frow = [tuple(cell(v) for v in r) for r in full.reindex(columns=cols).values.tolist()]
                     problems = []
                     # allow_missing=False: no row involves a missing value
                     for r in brow:
@@ -107,7 +108,7 @@ def w_missing(job):
                         sched.CTL.reset()
                         clean = run_entry(kind, cfg, removed[0], removed[1], False, sc, attrs, nj)
                         calls += 1
-                        crow = [tuple(cell(v) for v in r) for r in clean[cols].values.tolist()]
+                        crow = [tuple(cell(v) for v in r) for r in clean.reindex(columns=cols).values.tolist()]
                         if sorted(crow, key=repr) != sorted(brow, key=repr):
                             problems.append('result differs from the call on the tables without the missing rows: '
                                             'only with missing rows present %r, only without %r' % (
@@ -259,4 +260,4 @@ ASSUME = ['None and NaN are both used as missing markers (chosen by the presenta
 if __name__ == '__main__':
     tier = sys.argv[1] if len(sys.argv) > 1 else 'quick'
     sys.exit(run_check('C08', tier, layers(tier), assumptions=ASSUME,
-                       cap_s=300 if tier == 'quick' else 6000))
+                       cap_s=900 if tier == 'quick' else 7200))
